@@ -58,6 +58,14 @@ fn main() {
     if std::env::var("NV_PANICS").is_err() {
         std::panic::set_hook(Box::new(|_| {}));
     }
+    if args.first().map(|a| a.as_str()) == Some("--child") {
+        // helper process of a monitor (work whose crash must not take the monitor down)
+        let code = match args.get(1).map(|a| a.as_str()) {
+            Some("shuffle") => monitors::c18::child_main(&args[1..]),
+            _ => 2,
+        };
+        std::process::exit(code);
+    }
     let seed: u64 = std::env::var("VERIF_SEED").ok().and_then(|s| s.trim().parse().ok()).unwrap_or(1);
 
     if let Some(path) = replay {
